@@ -272,16 +272,20 @@ def trace_direction(ck, wd, n, sd, refs_cache, nslow=0):
                      what="%s (%s): recorded run rejected by Output after %d matched events; next event %s with directory %s queue %s loose %s" % (
                          cs["runs"][0]["prog"], cs["runs"][0]["input"], matched, _label(nxt["ev"]) if nxt else "-",
                          {k: v for k, v in (nxt or {}).get("fs", {}).items() if v != "absent"}, (nxt or {}).get("queue"), (nxt or {}).get("loose")))
+    doc["accepted"] = [i for i in range(len(traces)) if (i + 1) not in rejected]
     return doc, stats
 
 
 def binding_demo(ck, doc):
     """a corrupted snapshot must be rejected"""
     demos = []
-    good = [t for t in doc["traces"] if t["events"][-1]["ev"]["kind"] == "finish" and t["events"][0]["fs"]["out"] == "old"
+    acc = [doc["traces"][i] for i in doc["accepted"]]
+    good = [t for t in acc if t["events"][-1]["ev"]["kind"] == "finish" and t["events"][0]["fs"]["out"] == "old"
             and t["events"][0]["var"]["prog"] != "gen_seq"]
-    crashed = [t for t in doc["traces"] if t["events"][-1]["ev"]["kind"] == "crash" and t["events"][-1]["fs"] == t["events"][0]["fs"]
+    crashed = [t for t in acc if t["events"][-1]["ev"]["kind"] == "crash" and t["events"][-1]["fs"] == t["events"][0]["fs"]
                and len(t["events"]) > 3]
+    if (not good or not crashed) and ck.violations:
+        return "skipped: violations were reported and no accepted recorded trace of the required shape is left"
     if not good or not crashed:
         raise c.MachineryError("binding demonstration: no suitable recorded trace (successful over an existing file / crashed early)")
     t1 = json.loads(json.dumps(good[0]))
@@ -299,7 +303,7 @@ def binding_demo(ck, doc):
     del t3["events"][2]
     demos.append(t3)
     rej, res = validate_traces(ck, {"nbk": doc["nbk"], "runs": 1, "traces": demos + [good[0]]}, "binding", expect_reject=True)
-    if set(rej) != {1, 2, 3}:
+    if not {1, 2, 3} <= set(rej) or (4 in rej and not ck.violations):
         raise c.MachineryError("binding demonstration failed: corrupted traces %s rejected, expected exactly 1,2,3 (4 is the uncorrupted one)\n%s" % (
             sorted(rej), res.out[-1500:]))
     return "3 corrupted traces (backup dropped from the final snapshot; output truncated before the crash; one stage event removed) rejected after %s matched events, the uncorrupted original accepted" % [rej[i] for i in (1, 2, 3)]
